@@ -597,6 +597,15 @@ class OpsMixin:
     e_GeneratorExp = e_ListComp
 
     def try_symbolic_comp(self, node, frame):
+        if len(node.generators) != 1:
+            return None
+        g = node.generators[0]
+        try:
+            it = self.eval(g.iter, frame)
+        except E.Unsupported:
+            return None
+        if isinstance(it, VRef) and it.kind == "list" and not self.run.rec(it.oid).concrete:
+            return VGen(node, frame, it)
         return None
 
     def e_SetComp(self, node, frame):
